@@ -208,3 +208,148 @@ def checks(tier):
                outside="deeper paths; races between lstat and the later write (TOCTOU is not modelled)",
                assumptions=["os.lstat replaced by a symbolic file-system table"], tiers=q),
     ]
+
+
+# ---------------------------------------------------------------------------------------------
+# (c) composition on a real file system: sequences of checkouts / patches never touch anything outside the work tree
+import io as _io
+import shutil as _sh2
+
+_b17 = checks
+MARK = b"PWNED-BY-TREE-CONTENT\n"
+
+
+def _snap(directory):
+    out = {}
+    for dp, dn, fn in os.walk(directory):
+        for f in fn + [x for x in dn if os.path.islink(os.path.join(dp, x))]:
+            p = os.path.join(dp, f)
+            rel = os.path.relpath(p, directory)
+            if os.path.islink(p):
+                out[rel] = ("link", os.readlink(p))
+            else:
+                with open(p, "rb") as fh:
+                    out[rel] = ("file", fh.read())
+    return out
+
+
+def _trees(store, outside_abs):
+    """adversarial tree pool: name -> list of (path, mode, payload)"""
+    L = 0o120000
+    F = 0o100644
+    return {
+        "plain": [(b"d/f", F, MARK), (b"x", F, MARK)],
+        "d_link_parent": [(b"d", L, b"../outside")],
+        "d_link_abs": [(b"d", L, os.fsencode(outside_abs))],
+        "d_link_sibling": [(b"d", L, b"../wt-backup")],
+        "x_link_sibling_file": [(b"x", L, b"../wt-backup/target"), (b"README", F, b"hello\n")],
+        "d_dir": [(b"d/f", F, MARK), (b"d/g/h", F, MARK)],
+        "dotgit_upper": [(b".GIT/hooks/pre-commit", F, MARK)],
+        "dotgit_ntfs": [(b".git ./config", F, MARK), (b"git~1/config", F, MARK)],
+        "dotdot": [(b"../outside/evil", F, MARK)],
+        "absolute": [(b"/" + os.fsencode(outside_abs).lstrip(b"/") + b"/evil", F, MARK)],
+    }
+
+
+def _raw_tree(store, entries):
+    """build tree objects without going through path validation (as a hostile sender would)"""
+    from dulwich.objects import Blob, Tree
+    root = {}
+    for path, mode, payload in entries:
+        b = Blob.from_string(payload)
+        store.add_object(b)
+        parts = path.split(b"/")
+        cur = root
+        for p in parts[:-1]:
+            cur = cur.setdefault(p, {})
+        cur[parts[-1]] = (mode, b.id)
+
+    def build(dct):
+        t = Tree()
+        for name, v in dct.items():
+            if isinstance(v, dict):
+                t.add(name, 0o040000, build(v))
+            else:
+                t.add(name, v[0], v[1])
+        store.add_object(t)
+        return t.id
+    return build(root)
+
+
+def h_compose(eng, first="plain", steps=3):
+    from dulwich import porcelain
+    from dulwich.repo import Repo
+    from dulwich.objects import Commit
+    from vf.interpose import scratch
+    base = scratch("c17c")
+    try:
+        wt, outside, sibling = (os.path.join(base, n) for n in ("wt", "outside", "wt-backup"))
+        for p in (wt, outside, sibling):
+            os.mkdir(p)
+        with open(os.path.join(outside, "canary"), "wb") as f:
+            f.write(b"canary\n")
+        with open(os.path.join(sibling, "target"), "wb") as f:
+            f.write(b"original\n")
+        r = Repo.init(wt)
+        pool = _trees(r.object_store, outside)
+        names = sorted(pool)
+        before_out, before_sib = _snap(outside), _snap(sibling)
+        git_before = {k for k in _snap(os.path.join(wt, ".git")) if not k.startswith("objects")}
+        seq = []
+        for s in range(steps):
+            nm = first if s == 0 else names[eng.choice(f"tree{s}", len(names))]
+            mode = "hard" if s == 0 else ["hard", "mixed", "patch"][eng.choice(f"mode{s}", 3)]
+            seq.append((nm, mode))
+        parent = []
+        for nm, mode in seq:
+            tid = _raw_tree(r.object_store, pool[nm])
+            c = Commit()
+            c.tree = tid
+            c.parents = parent
+            c.author = c.committer = b"V <v@v>"
+            c.author_time = c.commit_time = 1
+            c.author_timezone = c.commit_timezone = 0
+            c.message = b"m"
+            r.object_store.add_object(c)
+            parent = [c.id]
+            try:
+                if mode == "patch":
+                    # a patch that rewrites every blob path of this tree (targets may by now be symlinks)
+                    diff = b""
+                    for path, m, payload in pool[nm]:
+                        if m == 0o100644:
+                            diff += (b"diff --git a/%s b/%s\n--- /dev/null\n+++ b/%s\n@@ -0,0 +1 @@\n+" % (path, path, path)) + MARK
+                    if diff:
+                        porcelain.apply_patch(r, _io.BytesIO(diff))
+                else:
+                    porcelain.reset(r, mode, c.id)
+            except Exception:
+                pass            # refusing is the safe behaviour
+        r.close()
+        tag = f"[sequence {seq}]"
+        eng.prove(_snap(outside) == before_out, f"{tag} nothing outside the work tree was created, changed or deleted: {_snap(outside)}")
+        eng.prove(_snap(sibling) == before_sib, f"{tag} a sibling directory whose name extends the work tree's was untouched: {_snap(sibling)}")
+        git_after = _snap(os.path.join(wt, ".git"))
+        bad = [k for k, v in git_after.items() if not k.startswith("objects") and v[0] == "file" and MARK in v[1]]
+        eng.prove(not bad, f"{tag} no tree content was written into .git: {bad}")
+        new = {k for k in git_after if not k.startswith("objects")} - git_before - {"index", "ORIG_HEAD", "HEAD"}
+        new = {k for k in new if not k.startswith("refs/") and not k.startswith("logs/")}
+        eng.prove(not new, f"{tag} no foreign file appeared in .git: {sorted(new)}")
+    finally:
+        _sh2.rmtree(base, ignore_errors=True)
+
+
+def checks(tier):
+    q = ("quick", "thorough")
+    pool_names = ["absolute", "d_dir", "d_link_abs", "d_link_parent", "d_link_sibling", "dotdot", "dotgit_ntfs", "dotgit_upper",
+                  "plain", "x_link_sibling_file"]
+    return _b17(tier) + [
+        KCheck("C17c.composition", h_compose, parts=[{"first": f, "steps": 3} for f in pool_names],
+               encoded=["dulwich.porcelain.reset/apply_patch", "dulwich.index.build_index_from_tree/update_working_tree/verify_leading_dirs/"
+                        "validate_path/build_file_from_blob", "dulwich.patch.apply_patches/_ensure_within_repo/_validate_patch_target"],
+               bounds="every sequence of 3 steps: a tree from an adversarial pool of 10 (symlinks to ../outside, to an absolute path, to a "
+                      "sibling directory whose name extends the work tree's, to a file in it; directory of the same name; .GIT, "
+                      "'.git .', git~1, '..' and absolute entry names) applied by reset --hard, reset --mixed or as a patch rewriting "
+                      "the tree's files; real directories with canaries outside the work tree",
+               outside="sequences longer than 3; clone/stash entry points; real NTFS/HFS+ file systems", time_budget=2400, tiers=q),
+    ]
